@@ -309,7 +309,7 @@ impl SyslogProcessor {
 // =====================================================================================================
 // which modification time the pass starts from: for .gz and .tar the time stored inside (when there is one), else the file's own
 // (BlockReader::mtime, src/readers/blockreader.rs), and SyslogProcessor::process_stage2_find_dt runs the pass, with that time,
-// exactly for a notation without a year
+// exactly for a notation without a year; GZ-MTIME: the statements of BlockReader::new that take the stored time from the gzip header
 impl Copy for SystemTime {}
 impl Clone for SystemTime { #[verifier::external_body] fn clone(&self) -> (r: Self) ensures r == *self { unimplemented!() } }
 pub uninterp spec fn st_of_secs(s: u64) -> SystemTime;
@@ -340,6 +340,41 @@ impl BlockReader {
         is_tar(self.filetype) ==> r == (if self.tar.unwrap().mtime != 0 { st_of_secs(self.tar.unwrap().mtime as u64) } else { self.file_metadata_modified }),
         !is_gz(self.filetype) && !is_tar(self.filetype) ==> r == self.file_metadata_modified,
 //@end
+}
+
+// the time stored inside a .gz: the statements of BlockReader::new that take it from the gzip header -- whenever there is a header,
+// whatever else the header holds (a file made with `gzip < in > out.gz` stores a time but no name)
+#[verifier::external_body]
+pub struct GzHeader { _p: u8 }
+impl GzHeader {
+    pub uninterp spec fn mtime_spec(&self) -> u32;
+    #[verifier::external_body]
+    pub fn mtime(&self) -> (r: u32) ensures r == self.mtime_spec() { unimplemented!() }
+    #[verifier::external_body]
+    pub fn filename(&self) -> (r: Option<&[u8]>) { unimplemented!() }
+}
+#[verifier::external_body]
+pub struct FromUtf8Error { _p: u8 }
+#[verifier::external_body]
+pub struct String { _p: u8 }
+impl String {
+    #[verifier::external_body]
+    pub fn from_utf8(v: Vec<u8>) -> (r: core::result::Result<String, FromUtf8Error>) { unimplemented!() }
+    #[verifier::external_body]
+    pub fn with_capacity(n: usize) -> (r: String) { unimplemented!() }
+}
+impl core::default::Default for String { #[verifier::external_body] fn default() -> (r: String) { unimplemented!() } }
+pub assume_specification<T: core::default::Default, E>[core::result::Result::<T, E>::unwrap_or_default](r: core::result::Result<T, E>) -> (o: T);
+#[verifier::external_body]
+pub fn verif_to_vec(s: &[u8]) -> (r: Vec<u8>) ensures r@ == s@ { unimplemented!() }   // stand-in: <[u8]>::to_vec
+pub fn gz_header_mtime(header_opt: Option<&GzHeader>, filename0: String) -> (r: u32)
+    ensures header_opt is Some ==> r == header_opt.unwrap().mtime_spec(), header_opt is None ==> r == 0
+{
+    let mut filename: String = filename0;
+//@cut slice path=src/readers/blockreader.rs impl=BlockReader fn=new anchor="let mut mtime: u32 = 0;" take=range end_anchor="match header_opt {" label=GZ-MTIME
+//@replace "filename_.to_vec()" "verif_to_vec(filename_)" count=0+
+//@end
+    mtime
 }
 
 /// vacuity guard: must NOT verify
